@@ -655,7 +655,7 @@ def ut_case(g, tier, idx, force=None):
     if force.get("big") or (not force and r.random() < 0.012):
         # long inputs: 2n+1 = 25 .. 67 sigma points per component (chunk boundaries 16, 32, 64 and +-1)
         large = True
-        nx = r.choice(BIG_N) - sum(nzs)
+        nx = (force["big"] if (force.get("big") and force["big"] is not True) else r.choice(BIG_N)) - sum(nzs)
         k = r.choice([1, 2])
         ny = nx if mode == "asm" else r.randint(1, 3)
     nx, ny, k = force.get("nx", nx), force.get("ny", ny), force.get("k", k)
@@ -931,6 +931,14 @@ def compare_ut(meta, o, mo, stats):
         P = blockdiag(meta["Ps"][i], meta["Qin"] if nz else [])
         pn = max(n * maxabs(P), 0.0)
         tsq = C_SQRT * n * EPS * pn
+        # accuracy of the factor seen through A, per input coordinate: relative to ||P|| in general; when the state block
+        # is exactly diagonal the coordinates decouple (see check_points_linear) and the scale of coordinate b is
+        # sqrt(P_bb) -- a tolerance relative to the largest variance would hide an error in a small one
+        sdev = [math.sqrt(pn)] * n
+        if nx >= 2 and all(P[a_][b_] == 0 for a_ in range(nx) for b_ in range(nx) if a_ != b_):
+            zn = math.sqrt(nz * max([abs(float(P[a_][b_])) for a_ in range(nx, n) for b_ in range(nx, n)] + [0.0])) if nz else 0.0
+            sdev = [math.sqrt(float(P[b_][b_])) for b_ in range(nx)] + [zn] * nz
+        fsc = [sum(abs(float(A[a_][b_])) * sdev[b_] for b_ in range(n)) for a_ in range(ny)]
         cmean = [o["mean"][r][i] for r in range(ny)]
         ccov = [[o["cov"][a][ny * i + c] for c in range(ny)] for a in range(ny)]
         ccross = [[o["cross"][a][ny * i + c] for c in range(ny)] for a in range(nx)]
@@ -940,7 +948,7 @@ def compare_ut(meta, o, mo, stats):
             Yx = [[sum(A[a][l] * Xi[l][j] for l in range(n)) + b[a] for j in range(N1)] for a in range(ny)]
             toks_ = ["utnv", str(ny), str(N1)] + [hexd(float(w_)) for w_ in swc_] + [hexd(float(Yx[a][j])) for j in range(N1) for a in range(ny)] + [hexd(float(v_)) for v_ in cmean]
             stats.setdefault("_utnv", []).append((" ".join(toks_), [[float(x_) for x_ in row_] for row_ in ccov], [[float(x_) for x_ in row_] for row_ in scov],
-                                                  [[tol_cov[a][c] + tsq * rowsum[a] * rowsum[c] for c in range(ny)] for a in range(ny)], meta["mode"], i,
+                                                  [[tol_cov[a][c] + C_SQRT * n * EPS * fsc[a] * fsc[c] for c in range(ny)] for a in range(ny)], meta["mode"], i,
                                                   [[float(x_) for x_ in row_] for row_ in meta["Nadd"]] if meta["Nadd"] is not None else None))
         for r in range(ny):
             em = float(abs(cmean[r] - mo["mean"][i][r]))
@@ -958,7 +966,7 @@ def compare_ut(meta, o, mo, stats):
             for c in range(ny):
                 em = float(abs(ccov[a][c] - mo["cov"][i][a][c]))
                 es = float(abs(ccov[a][c] - scov[a][c]))
-                tp = tol_cov[a][c] + tsq * rowsum[a] * rowsum[c]
+                tp = tol_cov[a][c] + C_SQRT * n * EPS * fsc[a] * fsc[c]
                 stats["ut_cov_model"] = max(stats.get("ut_cov_model", 0.0), em / tol_cov[a][c])
                 stats["ut_cov_spec"] = max(stats.get("ut_cov_spec", 0.0), es / tp)
                 if es > tp and not bad:
@@ -973,7 +981,7 @@ def compare_ut(meta, o, mo, stats):
             for c in range(ny):
                 em = float(abs(ccross[a][c] - mo["cross"][i][a][c]))
                 es = float(abs(ccross[a][c] - scross[a][c]))
-                tp = tol_cross[a][c] + tsq * rowsum[c]
+                tp = tol_cross[a][c] + C_SQRT * n * EPS * sdev[a] * fsc[c]
                 stats["ut_cross_model"] = max(stats.get("ut_cross_model", 0.0), em / tol_cross[a][c])
                 stats["ut_cross_spec"] = max(stats.get("ut_cross_spec", 0.0), es / tp)
                 if es > tp and not bad:
@@ -1728,8 +1736,9 @@ def run(ctx):
         # enumerated every run: long inputs; >= 5 components with several appended noise blocks; consecutive calls
         # whose offsets matrices have the same number of entries in different shapes (ny x (2n+1): 3x5 / 5x3, ...)
         adjacent = []
-        for i_ in range(ctx.n(2, 12)):
-            pre["transform"].append(ut_case(gt, ctx.tier, -1, {"big": True, "mode": gt.r.choice(["gen", "sm", "asm", "mm", "amm"])}))
+        for i_ in range(ctx.n(3, 12)):
+            # 2n+1 = 33 and 65 sigma points in every run, a third length at random
+            pre["transform"].append(ut_case(gt, ctx.tier, -1, {"big": [16, 32][i_] if i_ < 2 else True, "mode": gt.r.choice(["gen", "sm", "asm", "mm", "amm"])}))
         for i_ in range(ctx.n(3, 20)):
             pre["transform"].append(ut_case(gt, ctx.tier, -1, {"k": gt.r.choice([5, 6, 7]), "nzs": gt.r.choice([[1, 1], [2, 1], [1, 2, 1], [1, 1, 1, 1]]),
                                                               "mode": gt.r.choice(["gen", "sm", "mm"]), "nx": gt.r.randint(1, 3), "ny": gt.r.randint(1, 3)}))
